@@ -20,7 +20,9 @@ without `=` has no value).
 
 Out-of-model (answer `out-of-model`): a `proxy` option, `lt` values Python's `int` reads differently
 from `parseInt`, bases / remotes other than `coap[s|+tcp]://authority` with a well-formed authority
-(a `base` value whose authority has an unpaired bracket IS in the model: refused), `page` / `count`
+(a `base` value whose authority has an unpaired bracket, or with a `>` anywhere, IS in the model:
+refused; so is a query option with any printable-ASCII name: refused on writes unless it is an
+RFC 6690 parmname; names of link ATTRIBUTES stay `[A-Za-z0-9._-]+`), `page` / `count`
 with a value, search values ending in `*`, `anchor` attributes, hrefs that are not plain absolute
 paths, bytes outside printable ASCII.
 
@@ -131,11 +133,11 @@ def parseItem (s : String) : P (Str × Val) :=
   | [k, v] => do
     let k ← hexP k
     let v ← hexP v
-    guard' (keyOk k && charsetOk v)
+    guard' (charsetOk k && charsetOk v)      -- any printable-ASCII name, the empty one included
     pure (k, some v)
   | [k] => do
     let k ← hexP k
-    guard' (keyOk k)
+    guard' (charsetOk k)
     pure (k, none)              -- an option without `=`
   | _ => .error .bad
 
@@ -147,7 +149,7 @@ def writeQueryOk (q : Query) : Bool :=
   q.all (fun e => e.1 != sProxy &&
     (match e.2 with
      | none => true
-     | some v => (e.1 != sLt || ltOk v) && (e.1 != sBase || baseOk v || baseUnpaired v)))
+     | some v => (e.1 != sLt || ltOk v) && (e.1 != sBase || baseOk v || baseUnpaired v || v.contains 62)))
 
 def lookupQueryOk (q : Query) : Bool :=
   q.all (fun e =>
